@@ -32,9 +32,10 @@ COMPONENTS = {
     'stub': ['WSGI/ASGI servers and clients', 'event loop scheduler', 'responders executing the access history'],
 }
 EXPECTED_PROBES = ('io_error', 'json_doc', 'form_doc', 'plus_json', 'empty_body', 'truncated', 'corrupted', 'default_used',
-                   'repeat_call', 'earlier_request_same_body', 'parse_attempts_counted', 'asgi_multi_chunk', 'error_cached', 'wsgi', 'asgi')
+                   'repeat_call', 'null_document', 'earlier_request_same_body', 'parse_attempts_counted', 'asgi_multi_chunk', 'error_cached', 'wsgi', 'asgi')
 ASSUMPTIONS = (
-    'documents contain no lone surrogates, NaN/Infinity or a top-level null (resp.media = None means "no media")',
+    'documents contain no lone surrogates or NaN/Infinity; a top-level null is only posted, never sent through '
+    'resp.media (None means "no media" there)',
     'form mappings use str values or lists of >=2 strs (a 1-element list legitimately comes back as a str)',
     'a truncated body that happens to be a valid document may parse successfully (to exactly that document)',
 )
@@ -328,8 +329,13 @@ def run(ctx):
     kind = 'form' if ch.draw(4, 'kind') == 3 else 'json'
     if kind == 'json':
         doc = gen_json(ch)
-        if doc is None:
-            doc = [None]
+        null_doc = doc is None
+        if null_doc:
+            # a top-level null cannot be sent through resp.media (None means "no media"), but it is a
+            # JSON document a client may post: half of these runs post the literal body `null`
+            null_doc = bool(ch.draw(2, 'post_null'))
+            if not null_doc:
+                doc = [None]
         ctype = ch.choice(['application/json', 'application/json; charset=utf-8', 'application/vnd.api+json',
                            'application/json; foo=bar'], 'ctype')
         ctx.probe('json_doc')
@@ -337,6 +343,7 @@ def run(ctx):
             ctx.probe('plus_json')
     else:
         doc = gen_form(ch)
+        null_doc = False
         ctype = ch.choice(['application/x-www-form-urlencoded',
                            'application/x-www-form-urlencoded; charset=utf-8'], 'ctype')
         ctx.probe('form_doc')
@@ -371,6 +378,9 @@ def run(ctx):
             ex.consume()
         status1, body1, exc = ex.status_code, ex.body, ex.app_exc
         ct1 = ex.header_values('content-type')
+    if null_doc:
+        ctx.probe('null_document')
+        status1, body1, exc, ct1 = 200, b'null', None, [ctype]
     if exc is not None or status1 != 200:
         ctx.violate('media.serialize', 'serializing %r failed: status %r exc %r' % (doc, status1, exc), kind=kind)
         return
